@@ -16,6 +16,7 @@ SHARDS = {
     "urwid/display/escape.py:KeyqueueTrie.read_sgrmouse_info": (8, 4),
     "urwid/display/escape.py:KeyqueueTrie.get_recurse": (4, 4),
     "urwid/display/escape.py:process_keyqueue": (4, 4),
+    "urwid/display/_raw_display_base.py:Screen.get_input#after-a-resize": (8, 10),
 }
 
 # Proofs that take minutes: verified by `--tier thorough` only (quick: bounded stand-in decides these functions).
@@ -28,6 +29,7 @@ THOROUGH_ONLY = (
     "urwid/display/common.py:AttrSpec.foreground",
     "urwid/display/common.py:AttrSpec.__set_foreground",
     "urwid/util.py:rle_product",
+    "urwid/display/_raw_display_base.py:Screen.get_input#after-a-resize",  # 1109 paths, ~40 s on one core: the resize-throttling half of get_input (quick: the not-throttling instance + bounded C05/get-input-resize)
     "urwid/canvas.py:TextCanvas.__init__#two-rows",  # 4810 paths, ~9 min on one core (the one-row instance runs in the quick tier)
 )
 SHARDS.update({
